@@ -24,7 +24,7 @@ from fractions import Fraction
 import numpy as np
 
 from harness.c16 import (cq, cqlist, chdr, prove_static_local, tri_from_json, tri_to_json, val_from_json,
-                         val_to_json, respell_meta, rebuild_dates, meta_key, flatten_alike_metas)
+                         val_to_json, respell_meta, rebuild_dates, meta_key, flatten_alike_metas, hash_colliding_metas)
 from harness.common import COQ, REPO, parse_coq_eval
 from harness.coqterm import NotRepresentable, ccell, cerr, cstr, canon_meta
 from harness.gen import Gen, add_m, month_end
@@ -396,9 +396,20 @@ def gen_disagg(r: random.Random, partial=True):
                       [Metadata(details={"k": ""}), Metadata(details={"k": None})]])[:n_slices]
     cells = []
     step = sub if how in ("ok",) else r.choice([1, 3])
-    for m in metas:
+    # P: whole periods missing (annual 2018 and 2020 without 2019; only the first half-years): in every slice, or in one
+    # slice next to a complete one.  The gaps are whole multiples of the period length (not the gapped class H4).
+    missing = "none"
+    if not clean and r.random() < 0.3:
+        missing = r.choice(["all-slices", "one-slice"]) if n_slices == 2 else "all-slices"
+        n_periods = max(n_periods, 2) + (1 if missing == "one-slice" else 0)
+    for si, m in enumerate(metas):
         cur = (y0, m0)
         for p in range(n_periods):
+            if missing == "all-slices" and p > 0:
+                cur = add_m(cur[0], cur[1], R * (1 + p % 2))          # skip one or two whole periods
+            if missing == "one-slice" and si == 1 and p == 1:
+                cur = add_m(cur[0], cur[1], R)                          # this slice lacks the second period
+                continue
             ps = D(cur[0], cur[1], 1)
             ey, em = add_m(cur[0], cur[1], R - 1)
             pe = month_end(ey, em)
@@ -471,7 +482,7 @@ def gen_disagg(r: random.Random, partial=True):
             # direct conservation oracle only (the Coq model is stated for cumulative triangles)
             tri = tri.to_incremental()
     return dict(kind="disagg", tri=tri, res=sub, weights=weights, fields=farg, how=how, wtag=wtag, R=R,
-                incremental=incremental, cal=cal)
+                incremental=incremental, cal=cal, missing=missing)
 
 
 def run_disagg(case):
@@ -958,6 +969,20 @@ def harden_case(r, case):
         case["harden"] = "date-kinds"
         case["date_kind"] = r.choice(["timestamp", "datetime"])
         cells = [rebuild_dates(c, case["date_kind"]) for c in cells]
+    elif 0.38 <= x < 0.50 and case["kind"] in ("convert", "disagg", "aq") and len(cells) <= 10 and not case.get("incremental"):
+        # M: a sibling slice that differs ONLY by a hash-colliding value (-1 / -2) in a detail, loss detail or limit
+        case["harden"] = "hash-collide"
+        pair = r.choice(hash_colliding_metas())
+        if r.random() < 0.5:
+            pair = pair[::-1]
+
+        def with_pair(m, pm):
+            return dataclasses.replace(m, details={**m.details, **pm.details}, loss_details={**m.loss_details, **pm.loss_details},
+                                       per_occurrence_limit=pm.per_occurrence_limit if pm.per_occurrence_limit is not None
+                                       else m.per_occurrence_limit)
+
+        cells = [c.replace(metadata=with_pair(c.metadata, pair[0])) for c in cells] + \
+                [c.replace(metadata=with_pair(c.metadata, pair[1]), values={k: v + 1 for k, v in c.values.items()}) for c in cells]
     elif x < 0.38 and case["kind"] in ("convert", "aq"):
         # I: restated cells -- the same coordinates a second time with other values (accepted with a warning)
         case["harden"] = "restated"
@@ -1155,6 +1180,7 @@ def run(ctx):
                 elif kind == "disagg":
                     ctx.hist(f"disagg:{case['how']}/{case['wtag']}/R{case['R']}->{case['res']}")
                     ctx.hist(f"disagg:periods-{case.get('cal', 'calendar')}")
+                    ctx.hist(f"disagg:missing-periods-{case.get('missing', 'none')}")
                     full = all(c.evaluation_date >= c.period_end for c in case["tri"].cells)
                     exact = full and (case["weights"] is None and case["R"] // max(case["res"], 1) in (1, 2, 4)
                                       or case["wtag"] == "dyadic")
